@@ -49,6 +49,11 @@ KIND_PROPS = {
     "tok_transfer": {"C03", "C07"},
     "tok_inc":      {"C07"},
     "tok_burn":     {"C03", "C07"},
+    # a third party using an allowance (cw20 TransferFrom / SendFrom / BurnFrom), the owner shrinking it
+    "tok_xfer_from": {"C03", "C07"},
+    "tok_send_from": {"C01", "C02", "C03", "C04", "C06", "C07", "C10", "C11", "C12", "C13", "C14", "C20"},
+    "tok_burn_from": {"C03", "C07"},
+    "tok_dec":      {"C07"},
     "query:sim":    {"C01", "C06", "C12"},
     "query:rsim":   {"C12"},
     "query:rsimops": {"C12", "C13"},
@@ -76,7 +81,7 @@ def counts_against(pid, case):
 
 WORLD_RULE = ("operation sequences on a cw-multi-test world (factory, router, 3 cw20s + upper-case aliases, 13 denoms (colliding under concatenation, equal to token addresses, long shared prefixes, case variants), 2-5 pairs of all kinds, "
               "6 accounts incl. bystanders with open allowances): mostly-valid operations generated against the live state plus a malformed stream "
-              "(wrong asset/amount/funds, forged Receive, unauthorised callers, malformed routes); every step's result and the full changed ledger are compared with the model; "
+              "(wrong asset/amount/funds, forged Receive, unauthorised callers, malformed routes), third parties acting through user-to-user allowances (TransferFrom / SendFrom with hooks / BurnFrom / DecreaseAllowance); every step's result and the full changed ledger are compared with the model; "
               "non-trivial = implementation accepted the step; distinct by line hash")
 
 PLAN = {
